@@ -2,7 +2,8 @@
    output is a fixed point.  Only statements here; proofs are in Syntax/SerializerProofs.v and, for the
    fragments, in Syntax/RoundTrip.v + SerializerRoundTrip.v (one-line patterns) and Syntax/RoundTripML.v +
    EntryLoop.v + SerializerLoop.v + SerializerML.v (multi-line patterns) + RoundTripSel.v + SerializerSel.v (select
-   expressions and nested placeables) + CallArgs.v + SerializerCalls.v (call arguments).
+   expressions and nested placeables) + CallArgs.v + SerializerCalls.v (call arguments) + ArgsNest.v + RoundTripNest.v +
+   SerializerNest.v (nested call arguments) + WfComplete.v (every well-formed tree is in a fragment).
 
    PROVED IN FULL, for ALL trees (not only parser outputs), about Syntax/SerializerModel.v:
      C04_serialize_total          serialize_with_options never panics / always returns
@@ -13,6 +14,28 @@
      C04_junk_verbatim, C04_junk_skipped     Junk is written byte for byte / not at all (the D6 repair)
      C04_comment_lines            the exact text serialize_comment writes
      C04_final_indent_zero        a run of the serializer ends at the indent level it started with
+   PROVED FOR THE PARSE OF EVERY LAYOUT OF EVERY WELL-FORMED TREE but the shape of D7, both serializer options:
+     C04_roundtrip_wellformed_sources_partial   for every tree tj with Render.wf_resource tj, WfUtf8.wf_utf8_resource tj
+                                  and WfComplete.comments_end_ok tj (the last line of every comment contains a byte
+                                  other than a space) and EVERY layout cs: the tree t that the parser returns for
+                                  render cs tj serializes to a text that parses back, without errors, to a tree with
+                                  the same normal form, and serialising that tree gives the same text (round trip and
+                                  fixed point).  So C04 holds for the parser output of every source the grammar
+                                  (Render.v) produces from such a tree
+   PROVED FOR THE FRAGMENTS snest_resource d (Syntax/SerializerNest.v; d = nesting depth, any d), both options:
+     C04_roundtrip_nested_partial, C04_fixpoint_nested_partial, C04_nested_output (the text:
+                                  SerializerNest.snest_resource_text; as for ssel_resource below, and a positional
+                                  argument may be any inline expression: a call, a term attribute, a placeable
+                                  "{" expression "}" -- a select expression in it is written over several lines
+                                  inside the parentheses)
+     C04_nested_contains_parser_outputs   for every tree tj of RoundTripNest.nest_resource d (C02's fragment with
+                                  nested call arguments, which contains every well-formed tree with
+                                  comments_end_ok: C02_wellformed_in_nested) and EVERY layout cs, the tree the
+                                  parser returns for render cs tj is in snest_resource d
+     C04_multiline_in_nested      sml_resource (below) is contained in snest_resource 0
+   The fragment snest_resource d: as ssel_resource d below with RoundTripNest.nest_pattern d in place of
+   RoundTripSel.sel_pattern d (call arguments of any nesting), the condition on text elements also inside
+   call arguments.
    PROVED FOR THE FRAGMENTS ssel_resource d (Syntax/SerializerSel.v; d = nesting depth of placeables, any d), both
    serializer options:
      C04_roundtrip_select_partial, C04_fixpoint_select_partial, C04_select_output (the text:
@@ -83,6 +106,7 @@ From FluentV Require Import Base.Bytes Base.Outcome Base.Utf8 Syntax.Ast.
 From FluentV Require Import Syntax.ParserModel Syntax.SerializerModel Syntax.SerializerProofs Syntax.TreeNorm.
 From FluentV Require Import Syntax.Render Syntax.RoundTrip Syntax.SerializerRoundTrip.
 From FluentV Require Import Syntax.EntryLoop Syntax.RoundTripML Syntax.RoundTripSel Syntax.SerializerML Syntax.SerializerSel.
+From FluentV Require Import Syntax.WfUtf8 Syntax.RoundTripNest Syntax.WfComplete Syntax.SerializerNest.
 
 (* ---- "serialising ... yields" : the serializer returns for every tree ---- *)
 Theorem C04_serialize_total :
@@ -293,6 +317,59 @@ Proof. exact parser_outputs_ssel. Qed.
 Theorem C04_multiline_in_select : forall t, sml_resource t = true -> ssel_resource 0 t = true.
 Proof. exact sml_resource_ssel. Qed.
 
+(* ---- nested call arguments (SerializerNest.snest_resource d) ---- *)
+Theorem C04_roundtrip_nested_partial :
+  forall d bs t errs, parse bs = Done (t, errs) -> snest_resource d t = true ->
+  forall with_junk s, serialize_with_options with_junk t = Done s ->
+  exists t2 errs2, parse s = Done (t2, errs2) /\ norm t2 = norm (drop_junk_unless with_junk t) /\
+                   errs2 = [] /\ snest_resource d t2 = true.
+Proof.
+  intros d bs t errs _ Ht wj s Hs.
+  destruct (parse_serialize_snest d wj t Ht) as (t2 & Es & Ep & Hn & Ht2 & _).
+  rewrite Es in Hs. injection Hs as <-.
+  exists t2, []. rewrite (g_no_junk (snest_pok d) t wj Ht). repeat split; assumption.
+Qed.
+
+Theorem C04_fixpoint_nested_partial :
+  forall d bs t errs, parse bs = Done (t, errs) -> snest_resource d t = true ->
+  forall with_junk s, serialize_with_options with_junk t = Done s ->
+  forall t2 errs2, parse s = Done (t2, errs2) -> serialize_with_options with_junk t2 = Done s.
+Proof.
+  intros d bs t errs _ Ht wj s Hs t2 errs2 Hp2.
+  destruct (parse_serialize_snest d wj t Ht) as (t2' & Es & Ep & _ & _ & Efix).
+  rewrite Es in Hs. injection Hs as <-. rewrite Ep in Hp2. injection Hp2 as <- <-. exact Efix.
+Qed.
+
+Theorem C04_nested_output :
+  forall d with_junk t, snest_resource d t = true ->
+  serialize_with_options with_junk t = Done (snest_resource_text d t).
+Proof. intros d wj t Ht. destruct (parse_serialize_snest d wj t Ht) as (t2 & Es & _). exact Es. Qed.
+
+Theorem C04_nested_contains_parser_outputs :
+  forall d cs tj, nest_resource d tj = true ->
+  exists t, parse (render cs tj) = Done (t, []) /\ snest_resource d t = true /\ map join_entry t = tj.
+Proof. exact parser_outputs_snest. Qed.
+
+Theorem C04_multiline_in_nested : forall t, sml_resource t = true -> snest_resource 0 t = true.
+Proof. exact sml_resource_snest. Qed.
+
+(* C04 for the parser output of every layout of every well-formed tree whose comments do not end in an empty or
+   whitespace-only line: round trip (no errors, same normal form) and fixed point *)
+Theorem C04_roundtrip_wellformed_sources_partial :
+  forall cs tj, wf_resource tj = true -> wf_utf8_resource tj = true -> comments_end_ok tj = true ->
+  forall t errs, parse (render cs tj) = Done (t, errs) ->
+  forall with_junk s, serialize_with_options with_junk t = Done s ->
+  exists t2 errs2, parse s = Done (t2, errs2) /\ norm t2 = norm (drop_junk_unless with_junk t) /\ errs2 = [] /\
+                   serialize_with_options with_junk t2 = Done s.
+Proof.
+  intros cs tj Hw Hu Hc t errs Hp wj s Hs.
+  destruct (wf_resource_nest tj Hw Hu Hc) as [d Hd].
+  destruct (parser_outputs_snest d cs tj Hd) as (t' & Ep' & Ht' & _). rewrite Ep' in Hp. injection Hp as <- <-.
+  destruct (parse_serialize_snest d wj t' Ht') as (t2 & Es & Ep & Hn & _ & Efix).
+  rewrite Es in Hs. injection Hs as <-.
+  exists t2, []. rewrite (g_no_junk (snest_pok d) t' wj Ht'). repeat split; assumption.
+Qed.
+
 (* ---- the multi-line fragment (SerializerML.sml_resource) ---- *)
 (* C04_roundtrip_statement with the extra premise that the parsed tree lies in the fragment; there are no
    errors, and the re-parsed tree is in the fragment again *)
@@ -450,6 +527,15 @@ Example C04_example_calls_in_fragment :
                   b "           *[other] Ctrl" ++ LF ++ b "        }" ++ LF ++
                   b "    .g =" ++ LF ++ b "        { -brand.gender ->" ++ LF ++ b "           *[other] it" ++ LF ++ b "        }" ++ LF ++
                   b "    .h =" ++ LF ++ b "        { -brand.gender(case: 1) ->" ++ LF ++ b "           *[x] y" ++ LF ++ b "        }" ++ LF).
+Proof. eexists. conj_compute. Qed.
+
+(* a source with nested call arguments (a call, a term attribute, a placeable with a select expression as
+   arguments): its tree is in the fragment of depth 3; its serialization *)
+Example C04_example_nested_in_fragment :
+  let src := b "m = { F( G($x) , -t.a,{ $n ->" ++ LF ++ b "     *[k] v" ++ LF ++ b "  }, z : 1 ) }" ++ LF in
+  exists t, parse src = Done (t, []) /\ snest_resource 3 t = true /\
+            serialize_with_options true t =
+            Done (b "m = { F(G($x), -t.a, {$n ->" ++ LF ++ b "       *[k] v" ++ LF ++ b "    }, z: 1) }" ++ LF).
 Proof. eexists. conj_compute. Qed.
 
 (* a select expression with a default variant *)
